@@ -5,5 +5,13 @@ CLAIMS = {
   "note": "Trusted: govc's SSA->SMT translation, the SMT solvers, heap type invariants. Not decided: induction over the page graph (tree predicate across fetch), see DESIGN.md §5.",
  },
 }
+CLAIMS["C09"] = {
+  "text": "Proved for all token lists: every production of sql/parser.go (28 productions plus match/requireMatch/curType/hasType/requireInt/unexpectedTypeErr), TokenList, Token.Val, tokenScanner.Cur/Next, stripQuotes and engine.parseSQL is free of run-time panics (index, slice bounds, nil dereference, failed type assertion) and terminates: each production and each list loop strictly decreases the measure (remaining tokens, production rank). The copied text/scanner (sql/go_scanner.go) is trusted, not verified.",
+  "note": "Trusted: sql.Scanner.{Init,Scan,Peek,TokenText} (copied Go text/scanner: assumed to terminate, not to panic and to return some string); axioms about package-level tables (EOFToken, literals) stated in sql/verif_contracts.go; memory exhaustion not modelled. The tokenising loop of parseSQL terminates only under the scanner assumption.",
+ }
+CLAIMS["C15"] = {
+  "text": "Proved for all cache states and arguments: LRUCache.get/set, NewLRU and fileStore.setCache against an abstract recency sequence (container/list modelled by positions): the representation invariant (list and index map in bijection, size = length <= capacity) is preserved; a hit returns the stored page and moves it to the front keeping the relative order of the others; a miss with room pushes to the front and evicts nothing; a miss on a full cache evicts exactly the clean entry with the greatest position (least recently used among the clean ones), never a dirty one, and is refused iff every entry is dirty; ErrLRUCacheFull iff refused. Histories follow by induction on the invariant.",
+  "note": "Trusted: the position model of container/list in /verif/stubs/list.spec (Back, Prev, PushFront, MoveToFront, Remove, Len, New); Go map semantics as modelled (presence array + counted length).",
+ }
 ALL = ["C%02d" % i for i in range(1, 21)]
 NOT_APPLICABLE = {p: "check not built yet in this session (work in progress; see DESIGN.md §8 build order)" for p in ALL if p not in CLAIMS}
